@@ -27,7 +27,10 @@ pub fn config(p: &Params) -> StreamingQueueConfig {
 #[derive(Default, Clone)]
 pub struct DriveOpts {
     /// after how many pushed contigs (global count) to call sync_and_flush explicitly
+    /// (0 = before the first push: a round in which no worker has anything to contribute)
     pub extra_sync_after: Vec<usize>,
+    /// start with an empty splitter set (what a reference without any singleton k-mer gives)
+    pub empty_splitters: bool,
 }
 
 pub fn create(path: &str, set: &SampleSet, p: &Params) -> Result<()> {
@@ -48,9 +51,16 @@ fn create_unguarded(path: &str, set: &SampleSet, p: &Params, opts: &DriveOpts) -
     // splitters come from the first input file (multi-file) or the first sample (single file);
     // with one sample per file these are the same contigs
     let ref_contigs: Vec<Vec<u8>> = set.samples[0].contigs.iter().map(|c| c.1.clone()).collect();
-    let (splitters, _, _) = determine_splitters(&ref_contigs, p.k, p.segment_size);
+    let (mut splitters, _, _) = determine_splitters(&ref_contigs, p.k, p.segment_size);
+    if opts.empty_splitters {
+        splitters.clear();
+    }
     let mut c = StreamingQueueCompressor::with_splitters(path, config(p), splitters)?;
     let mut pushed = 0usize;
+    if opts.extra_sync_after.contains(&0) {
+        c.drain()?;
+        c.sync_and_flush("EARLY")?;
+    }
     let mut after_push = |c: &StreamingQueueCompressor, pushed: &mut usize| -> Result<()> {
         *pushed += 1;
         if opts.extra_sync_after.contains(pushed) {
